@@ -321,6 +321,7 @@ class SimClient:
         self.garbage = []
         self.on_reply = {}    # id -> callback(reply message)
         self.on_notification = None
+        self.on_any_reply = None       # (client, request record or None, reply record)
         self.sub_status = {}  # scripthash hex -> (ev, status) last held
         self.subscribed = set()
         self.header = None    # (ev, {'hex','height'})
@@ -422,6 +423,8 @@ class SimClient:
                     self.headers_subscribed = True
                     if self.header is None or self.header[0] < req['ev']:
                         self.header = (ev, rec['result'])
+            if self.on_any_reply is not None:
+                self.on_any_reply(self, req, rec)
             cb = self.on_reply.pop(rid, None)
             if cb is not None:
                 cb(rec)
